@@ -524,17 +524,29 @@ class AppClock(Clock, metaclass=MetaAppClock):
 class ClockScheduler():
     def __init__(self):
         self.queue = tsq.TaskQueue()
+        self._entries = dict()
 
     def run(self):
         while not self.queue.empty():
             time, clock_task = self.queue.pop()
+            key = (clock_task.clock, clock_task.task)
+            if self._entries.get(key) is clock_task:
+                del self._entries[key]
             clock_task._wakeup(time)
 
     def add(self, time, clock_task):
+        # As in rt, where each clock's queue holds one entry per task,
+        # scheduling a task again updates the time of its pending entry.
+        key = (clock_task.clock, clock_task.task)
+        prev = self._entries.get(key)
+        if prev is not None and prev is not clock_task:
+            self.queue.remove(prev)
+        self._entries[key] = clock_task
         self.queue.add(time, clock_task)
 
     def reset(self):
         self.queue.clear()
+        self._entries.clear()
 
 
 class ClockTask():
